@@ -9,6 +9,10 @@ Streams (model `Wpull.Request` vs the real code in the repo under test):
            + CookieJarWrapper + DeFactoCookiePolicy + RedirectTracker over harness/fakenet.py, answering from
            generated redirect scripts; the bytes each fake server receives per hop vs the model's;
            the same through the REAL HTTPProxyConnectionPool (http chains): absolute-form target on EVERY hop
+  app      oracle only: the REAL application (AppArgumentParser + Builder factory + ClientSetupTask + pipeline + URL table +
+           processor) x cookie option sets {default, --save-cookies, --keep-session-cookies, --load-cookies, --no-cookies} x
+           twin-host redirect chains (cookie provenance), and redirects with hostile Location values to a page with links
+           (the Referer of every child request must be a clean normalised URL)
 Direct oracle (independent of the model) on every real request head: one request line with exactly two SP,
 field lines, blank line, no bare CR/LF, target = path?query (absolute URL with a proxy), exactly one Host equal to
 host[:non-default port] of the hop URL and of the host actually connected to, credentials and cookies only
@@ -529,6 +533,139 @@ def check_session_case(ctx, case):
     ctx.sample({'stream': 'session', 'url': case['url'], 'statuses': codes, 'outcome': res['outcome'], 'hops': len(res['hops'])})
 
 
+# ------------------------------------------------------------------ the whole application (set-up code and table glue included)
+APP_TWINS = [('a.example', 'sub.a.example'), ('a.example', 'deep.sub.a.example:8080'), ('sub.a.example', 'a.example'),
+             ('[2001:db8::2]', '[2001:db8::5]'), ('a.example', 'xa.example')]
+APP_COOKIE_OPTIONS = ['default', 'save', 'save-keep', 'load', 'load-save', 'no-cookies']
+HOSTILE_LOCATIONS = [b'/t y?a b#frag', b'/caf\xe9/p\xff', b'/p#frag', b'http://a.example/a b/', b'/%7Euser/x y', b'/plain',
+                     b'http://user:pw@a.example/priv ate/', b'/x\xa0y?\x85#\xe9', b'//a.example/s p?q#f', b'/a/../b c/./d']
+
+
+def referer_clean(ctx, case, fields, where, k):
+    """a Referer on the wire is a clean, normalised URL without user-info (whatever data it was built from)"""
+    from wpull.url import URLInfo
+    for n, v in fields:
+        if n.lower() != 'referer':
+            continue
+        bad = None
+        if any(ord(ch) <= 0x20 or ord(ch) > 0x7e for ch in v):
+            bad = 'white space / control / non-ASCII byte'
+        elif '#' in v:
+            bad = 'fragment'
+        elif '@' in urllib.parse.urlsplit(v).netloc:
+            bad = 'user-info'
+        else:
+            try:
+                if URLInfo.parse(v).url != v:
+                    bad = 'not in normalised form'
+            except ValueError:
+                bad = 'not a URL'
+        if bad:
+            ctx.fail('referer-not-normalised', where, case, 'request %d carries Referer %r: %s' % (k, v, bad))
+
+
+def check_app_case(ctx, case):
+    """Builder(args).build().run() of the real application (AppArgumentParser, factory, ClientSetupTask, pipeline, URL
+    table, processor); wire oracle on every request head the fake servers receive."""
+    import os
+    import shutil
+    import tempfile
+    tmp = tempfile.mkdtemp(prefix='c16app-')
+    try:
+        extra, preload = [], {}
+        opt = case.get('cookies', 'default')
+        jarfile = os.path.join(tmp, 'cookies.txt')
+        if opt in ('load', 'load-save'):
+            h1 = case['hosts'][0]
+            bare = h1.rsplit(':', 1)[0] if not h1.startswith('[') else h1
+            with open(jarfile, 'w') as f:
+                f.write('# Netscape HTTP Cookie File\n')
+                f.write('%s\tFALSE\t/\tFALSE\t4102444800\tfileHostOnly\tv1\n' % bare)
+                if not bare.startswith('['):
+                    f.write('.a.example\tTRUE\t/\tFALSE\t4102444800\tfileDomain\tv2\n')
+            preload = {'fileHostOnly': (h1, None), 'fileDomain': ('a.example', '.a.example')}
+            extra += ['--load-cookies', jarfile]
+        if opt in ('save', 'save-keep', 'load-save'):
+            extra += ['--save-cookies', os.path.join(tmp, 'out-cookies.txt')]
+        if opt == 'save-keep':
+            extra += ['--keep-session-cookies']
+        if opt == 'no-cookies':
+            extra += ['--no-cookies']
+        res = rc.run_crawl(case['url'], case['replies'], 1, 10, extra_argv=extra, recursive=case.get('recursive', False))
+    finally:
+        shutil.rmtree(tmp, ignore_errors=True)
+    hops = res['named_hops']
+    ctx.case(('app', repr(case)), nontrivial=len(hops) > 0,
+             tags=['app:' + case['kind'], 'app:cookies=' + opt, 'app:requests=%d' % min(len(hops), 9)])
+    if res['hung'] or res['capped']:
+        ctx.fail('no-termination', 'Application.run', case, 'the crawl did not end')
+        return
+    cookie_src = dict(preload)
+    where = 'Application'
+    for k, (host, port, head, body) in enumerate(hops):
+        problems, method, target, version, fields = rc.split_request(head)
+        if problems:
+            ctx.fail('request-shape', where, case, 'request %d head %r: %s' % (k, head[:300], problems))
+            continue
+        hvals = [v for n, v in fields if n.lower() == 'host']
+        name = '[%s]' % host if ':' in host else host
+        if len(hvals) != 1 or hvals[0] not in (name, '%s:%d' % (name, port)):
+            ctx.fail('host-mismatch', where, case, 'request %d sent to %s:%d carries Host %r' % (k, host, port, hvals))
+        referer_clean(ctx, case, fields, 'ItemSession.add_child_url' if case['kind'] == 'referer' else where, k)
+        for n, v in fields:
+            if n.lower() == 'cookie':
+                ctx.tag('app:cookie-sent')
+                if opt == 'no-cookies':
+                    ctx.fail('cross-host-cookie', 'ClientSetupTask._build_cookie_jar', case, 'request %d carries Cookie %r with --no-cookies' % (k, v))
+                for part in v.split(';'):
+                    cname = part.strip().split('=', 1)[0]
+                    src = cookie_src.get(cname)
+                    if src is None:
+                        ctx.fail('cross-host-cookie', 'ClientSetupTask._build_cookie_jar', case, 'request %d carries unknown cookie %r' % (k, part))
+                    elif not cookie_owner_ok(hvals[0] if hvals else host, src[0], src[1]):
+                        ctx.fail('cross-host-cookie', 'ClientSetupTask._build_cookie_jar', case,
+                                 'request %d to %s carries cookie %r that belongs to %s (Domain=%r); cookie options %r'
+                                 % (k, hvals, part.strip(), src[0], src[1], opt))
+        if k < len(case['replies']):
+            for c in case['replies'][k].get('cookies', ()):
+                txt = c.decode('latin-1')
+                dom = None
+                for a in txt.split(';')[1:]:
+                    if a.strip().lower().startswith('domain='):
+                        dom = a.strip()[7:]
+                cookie_src[txt.split('=', 1)[0]] = (hvals[0] if hvals else host, dom)
+    ctx.sample({'stream': 'app', 'kind': case['kind'], 'cookies': opt, 'url': case['url'], 'requests': len(hops)})
+
+
+def gen_app_cases(rng, n_cookie, n_referer):
+    out = []
+    for i in range(n_cookie):
+        if i < 2 * len(APP_COOKIE_OPTIONS):
+            # every cookie option set x the two parent -> sub-domain twins
+            h1, h2 = APP_TWINS[i % 2]
+            opt = APP_COOKIE_OPTIONS[i // 2]
+        else:
+            h1, h2 = rng.choice(APP_TWINS)
+            opt = rng.choice(APP_COOKIE_OPTIONS)
+        code = lambda: rng.choice([301, 302, 303, 307, 308])
+        u = rng.randrange(1000)
+        replies = [{'status': code(), 'location': ('http://%s/a' % h2).encode(), 'cookies': [b'ckT1=v%d' % u], 'mode': 'resp'},
+                   {'status': code(), 'location': ('http://%s/b' % h1).encode(), 'cookies': [b'ckT2=v%d; Path=/' % u], 'mode': 'resp'},
+                   {'status': code(), 'location': ('http://%s/c' % h2).encode(),
+                    'cookies': [b'ckT3=v%d; Domain=.a.example' % u] if 'a.example' in h1 and 'a.example' in h2 else [], 'mode': 'resp'},
+                   {'status': 200, 'location': None, 'cookies': [], 'mode': 'resp'}]
+        out.append({'stream': 'app', 'kind': 'cookies', 'cookies': opt, 'hosts': [h1, h2], 'url': 'http://%s/login' % h1, 'replies': replies})
+    for i in range(n_referer):
+        loc = HOSTILE_LOCATIONS[i % len(HOSTILE_LOCATIONS)] if i < len(HOSTILE_LOCATIONS) else rng.choice(HOSTILE_LOCATIONS)
+        body = b'<html><body><a href="http://a.example/child1">c</a> <a href="http://a.example/child2?x=1">d</a></body></html>'
+        replies = [{'status': rng.choice([301, 302, 303, 307, 308]), 'location': loc, 'cookies': [], 'mode': 'resp'},
+                   {'status': 200, 'location': None, 'cookies': [], 'mode': 'resp', 'body': body, 'extra': [b'Content-Type: text/html']},
+                   {'status': 200, 'mode': 'resp'}, {'status': 200, 'mode': 'resp'}]
+        out.append({'stream': 'app', 'kind': 'referer', 'cookies': 'default', 'hosts': ['a.example'],
+                    'url': rng.choice(['http://a.example/x', 'http://a.example/dir/start?q=1']), 'replies': replies, 'recursive': True})
+    return out
+
+
 # ------------------------------------------------------------------ entry points
 def load_corpus(ctx, pid='C16'):
     import glob
@@ -551,6 +688,8 @@ def replay(ctx, case, kind=None, where=None):
         check_session_case(ctx, case)
     elif s == 'referer':
         stream_referer(ctx, [case])
+    elif s == 'app':
+        check_app_case(ctx, case)
     elif s in ('title', 'auth', 'hostport'):
         stream_small(ctx, ctx.subrng('replay'), 50)
     else:
@@ -591,6 +730,9 @@ def run(ctx):
     srng = ctx.subrng('session')
     for _ in range(ctx.scale(600, 18000)):
         check_session_case(ctx, gen_chain_case(srng))
+    arng = ctx.subrng('app')
+    for case in gen_app_cases(arng, ctx.scale(24, 400), ctx.scale(12, 200)):
+        check_app_case(ctx, case)
     prng = ctx.subrng('session-proxy')
     for _ in range(ctx.scale(250, 6000)):
         check_session_case(ctx, gen_chain_case(prng, proxy=True))
